@@ -13,6 +13,7 @@ import (
 
 func genEvolve(h *vh.H, i int) string {
 	cfg := cfgFor(h, "skel")
+	cfg.ListMethods = false // an appended array would break the list shape of such a response: not an append-safe container
 	cfg.MaxPkgs = 2
 	g := j5sgen.New(h.Rng, cfg)
 	b := g.Bundle()
